@@ -1153,3 +1153,62 @@ Fixpoint g_par (fuel : nat) (ST : nat -> stmt) (ok : gstate -> bool) (st : gstat
           end
       end
   end.
+
+(* ------------------------------------------------------------------------------------ *)
+(* Session::prepare (session.rs prepare_nongeneric / prepare_on_all 1623-1715): PREPARE is  *)
+(* sent on one connection to every node concurrently (join_all); [rs] = the answers in the  *)
+(* iteration order of the connections.  The first successful answer becomes the statement   *)
+(* (id, initial result metadata = the shared cell); every other successful answer must       *)
+(* carry the same id; no successful answer => the first error.                              *)
+(* ------------------------------------------------------------------------------------ *)
+Inductive prep_err := PE_AllFailed | PE_IdsMismatch.
+
+Fixpoint first_prepared (rs : list resp) : option (bytes * meta) :=
+  match rs with
+  | [] => None
+  | RPrepared id m :: _ => Some (id, m)
+  | _ :: r => first_prepared r
+  end.
+
+Definition same_prepared_id (id : bytes) (r : resp) : bool :=
+  match r with RPrepared id' _ => bytes_eqb id' id | _ => true end.
+
+Definition prepare_on_all (rs : list resp) : result prep_err (bytes * meta) :=
+  match first_prepared rs with
+  | None => Err PE_AllFailed
+  | Some (id, m) => if forallb (same_prepared_id id) rs then Ok (id, m) else Err PE_IdsMismatch
+  end.
+
+(* what the caller can observe of the result: the id and the column specs of the new statement *)
+Inductive prep_obs := PO_ok (id : bytes) (cols : list col) | PO_err (e : prep_err).
+
+(* the iteration order of the connections is not observable: is the observation the result of
+   [prepare_on_all] for SOME order of the recorded answers? *)
+Definition prep_accept (rs : list resp) (o : prep_obs) : bool :=
+  match o with
+  | PO_ok id cols =>
+      existsb (fun r => match r with
+                        | RPrepared id' m => bytes_eqb id' id && list_eqb col_eqb (m_cols m) cols
+                        | _ => false end) rs &&
+      forallb (same_prepared_id id) rs
+  | PO_err PE_AllFailed => match first_prepared rs with None => true | Some _ => false end
+  | PO_err PE_IdsMismatch =>
+      match first_prepared rs with
+      | Some (id, _) => negb (forallb (same_prepared_id id) rs)
+      | None => false
+      end
+  end.
+
+(* prepare_nongeneric: one connection per node first; only if that round fails (no node prepared
+   the statement, or ids differ) a second round over one connection per shard, whose result is final *)
+Definition session_prepare (rs1 rs2 : list resp) : result prep_err (bytes * meta) :=
+  match prepare_on_all rs1 with
+  | Ok x => Ok x
+  | Err _ => prepare_on_all rs2
+  end.
+
+Definition session_prep_accept (rs1 : list resp) (rs2 : option (list resp)) (o : prep_obs) : bool :=
+  match rs2 with
+  | None => match o with PO_ok _ _ => prep_accept rs1 o | PO_err _ => false end
+  | Some r2 => (prep_accept rs1 (PO_err PE_AllFailed) || prep_accept rs1 (PO_err PE_IdsMismatch)) && prep_accept r2 o
+  end.
